@@ -2,6 +2,7 @@ import GenjaxModel.Proofs.GfiCohInv
 import GenjaxModel.Proofs.GfiAssess
 import GenjaxModel.Proofs.GfiWeight
 import GenjaxModel.Proofs.GfiAssessCond
+import GenjaxModel.Proofs.GfiValues
 /-!
 # C03 — update returns the density ratio, keeps unconstrained choices, and is invertible
 -/
@@ -97,3 +98,207 @@ example : ∃ t t' w d x0 x1, condExG.simulate condExP [.num 1, .num 7] = some t
   ⟨_, _, _, _, _, _, rfl, rfl, rfl, rfl, rfl, rfl, rfl⟩
 
 end Genjax
+
+/-! ==============================================================================================
+    BEGIN work package `gfivalues`: the VALUES held by the updated trace and by the discard
+    (helper lemmas: Model/GfiPaths.lean, Proofs/GfiValues*.lean).
+    Addresses of single choices are paths (`Path`: dictionary keys and lane / step indices);
+    `CM.leafAt m p` is the value a choice map holds at a path, `CM.leafAt? x p` the same for an
+    optional map (`none` = Python `None`).  The choice map of a Cond trace is the leafwise
+    `where`-merge of both branch maps: where both branches have the address the taken branch is
+    visible, where only one has it that one is (`CM.mergeCheck_leafAt`).
+    ============================================================================================== -/
+namespace Genjax
+variable {R : Type} [AddCommGroup R] (P : Prims R) (cfg : Cfg)
+
+/-- After `update` with constraint `x`, every address constrained by `x` that exists in the new
+    trace's choice map holds `x`'s value — EVERY program (dist, fn, vmap, scan, cond at any depth),
+    every arguments, every variant `cfg`, every old trace (also across Cond branch switches: the
+    constraint is handed to both branches). -/
+theorem C03_update_constrained_hold_new (g : GF) (t : Tr R) (x : Option CM) (args : List Val)
+    (t' : Tr R) (w : R) (d : Option CM) (h : g.update P cfg t x args = some (t', w, d))
+    (y' : CM) (hy' : t'.choices = some y') (p : Path) (v : Val) (hv : CM.leafAt? x p = some v)
+    (v' : Val) (hv' : y'.leafAt p = some v') : v' = v :=
+  update_constrained_hold_new P cfg g t x args t' w d h y' hy' p v hv v' hv'
+
+/-- `update` neither adds nor removes addresses: the new choice map has a leaf exactly where the old
+    one has.  `hcan`: the old trace has the shape the operations build (`C04_ops_canonical`). -/
+theorem C03_update_leaf_domain (g : GF) (t : Tr R) (x : Option CM) (args : List Val)
+    (t' : Tr R) (w : R) (d : Option CM) (h : g.update P cfg t x args = some (t', w, d))
+    (hcan : g.Canon t) (y y' : CM) (hy : t.choices = some y) (hy' : t'.choices = some y')
+    (p : Path) : (y'.leafAt p).isSome = (y.leafAt p).isSome :=
+  update_leaf_domain P cfg g t x args t' w d h hcan y y' hy hy' p
+
+/-- Repaired `Cond.update` (`cfg.condUpdateFill`: the constraint is completed with the VISIBLE old
+    choices before it is handed to both branches): every address the constraint does not mention
+    keeps its old visible value (as an `Option`: it also stays present / absent) — EVERY program,
+    arguments, ALSO when Conds switch branch: no `Tr.sameChecks` hypothesis.
+    Supersedes `C03_update_unconstrained_keep_old_partial`. -/
+theorem C03_update_unconstrained_keep_old (hf : cfg.condUpdateFill = true)
+    (g : GF) (t : Tr R) (x : Option CM) (args : List Val)
+    (t' : Tr R) (w : R) (d : Option CM) (h : g.update P cfg t x args = some (t', w, d))
+    (hcan : g.Canon t) (y y' : CM) (hy : t.choices = some y) (hy' : t'.choices = some y')
+    (p : Path) (hx : CM.leafAt? x p = none) : y'.leafAt p = y.leafAt p :=
+  update_unconstrained_keep_old_fill P cfg hf g t x args t' w d h hcan y y' hy hy' p hx
+
+/-- The complete value-level description of the repaired `update` (`cfg.condUpdateFill`): the new
+    choice map has exactly the old one's addresses, and each holds the constraint's value if the
+    constraint has one there and the old VISIBLE value otherwise — every program, arguments, also
+    across Cond branch switches. -/
+theorem C03_update_values_spec (hf : cfg.condUpdateFill = true)
+    (g : GF) (t : Tr R) (x : Option CM) (args : List Val)
+    (t' : Tr R) (w : R) (d : Option CM) (h : g.update P cfg t x args = some (t', w, d))
+    (hcan : g.Canon t) (y y' : CM) (hy : t.choices = some y) (hy' : t'.choices = some y')
+    (p : Path) : y'.leafAt p = (y.leafAt p).map fun v => (CM.leafAt? x p).getD v :=
+  update_values_fill P cfg hf g t x args t' w d h hcan y y' hy hy' p
+
+/-- Any `cfg`, in particular the code as it was (`condUpdateFill = false`): the same PROVIDED no
+    Cond switched branch (`Tr.sameChecks t t'`).  `_partial`: the side condition carves out the
+    defective region — what the old code does after a switch: `C03_update_switch_values_asis`. -/
+theorem C03_update_unconstrained_keep_old_partial (g : GF) (t : Tr R) (x : Option CM)
+    (args : List Val)
+    (t' : Tr R) (w : R) (d : Option CM) (h : g.update P cfg t x args = some (t', w, d))
+    (hcan : g.Canon t) (hs : Tr.sameChecks t t')
+    (y y' : CM) (hy : t.choices = some y) (hy' : t'.choices = some y')
+    (p : Path) (hx : CM.leafAt? x p = none) : y'.leafAt p = y.leafAt p :=
+  update_unconstrained_keep_old P cfg g t x args t' w d h hcan hs y y' hy hy' p hx
+
+/-- A constraint map that `update` accepts has, at every path it shares with the old choice map,
+    the same kind of node (leaf / dict / vectorised map of the same length). -/
+theorem C03_update_constraint_agrees (g : GF) (t : Tr R) (xc : CM) (args : List Val) (t' : Tr R)
+    (w : R) (d : Option CM) (h : g.update P cfg t (some xc) args = some (t', w, d))
+    (hcan : g.Canon t) (y : CM) (hy : t.choices = some y) (q : Path) : AgreeAt xc y q :=
+  update_agree P cfg g t xc args t' w d h hcan y hy q
+
+/-- The code as it was (`cfg.condUpdateFill = false`), after a branch switch of a Cond that receives
+    the constraint directly (no Cond switches inside the branches): an unconstrained address shows
+    the value STORED in the branch that is now taken — the other branch's old value, not the value
+    that was visible — and where only one branch has the address, that branch's old value.
+    (`mergeLeaf c a b`: `a` if the check `c` holds and `a` exists, …) -/
+theorem C03_update_switch_values_asis (hf : cfg.condUpdateFill = false)
+    (tg fg : GF) (cOld : Bool) (a b : Tr R) (x : Option CM)
+    (args : List Val) (t' : Tr R) (w : R) (d : Option CM)
+    (h : (GF.cond tg fg).update P cfg (.cond cOld a b) x args = some (t', w, d)) :
+    ∃ a' b', t' = .cond (args.getD 0 .nil).truthy a' b' ∧
+      (tg.Canon a → fg.Canon b → Tr.sameChecks a a' → Tr.sameChecks b b' →
+        ∀ ya yb y', a.choices = some ya → b.choices = some yb → t'.choices = some y' →
+        ∀ p, CM.leafAt? x p = none →
+          y'.leafAt p = mergeLeaf (args.getD 0 .nil).truthy (ya.leafAt p) (yb.leafAt p)) :=
+  update_cond_switch_values P cfg hf tg fg cOld a b x args t' w d h
+
+/-- … whereas (any `cfg`) below a call site of a Fn that the constraint does not mention at all,
+    every address keeps its old VISIBLE value even when Conds below switch branch (no `sameChecks`
+    hypothesis): the Update handler constrains such a callee to its own old choice map. -/
+theorem C03_update_unconstrained_site_keeps_visible (body : Body) (t : Tr R) (x : Option CM)
+    (args : List Val) (t' : Tr R) (w : R) (d : Option CM)
+    (h : (GF.fn body).update P cfg t x args = some (t', w, d)) (hcan : (GF.fn body).Canon t)
+    (y y' : CM) (hy : t.choices = some y) (hy' : t'.choices = some y') (a : String)
+    (hx : x = none ∨ ∃ kids, x = some (.node kids) ∧ kids.find? a = none) (p : Path) :
+    y'.leafAt (.key a :: p) = y.leafAt (.key a :: p) :=
+  update_unconstrained_site_keeps_visible P cfg body t x args t' w d h hcan y y' hy hy' a hx p
+
+/-- Repaired `Cond.update` (`cfg.condDiscardVisible`): the discard is, leaf for leaf, the OLD VISIBLE
+    choice map — at every address, constrained or not (the Update handler re-constrains every call
+    site, so every Distribution reports its previous value). -/
+theorem C03_update_discard_is_old_choices (hdv : cfg.condDiscardVisible = true)
+    (g : GF) (t : Tr R) (x : Option CM) (args : List Val)
+    (t' : Tr R) (w : R) (d : Option CM) (h : g.update P cfg t x args = some (t', w, d))
+    (hcan : g.Canon t) (y y' : CM) (hy : t.choices = some y) (hy' : t'.choices = some y')
+    (p : Path) : CM.leafAt? d p = y.leafAt p :=
+  update_discard_eq_old P cfg hdv g t x args t' w d h hcan y y' hy hy' p
+
+/-- In the form of the property: the discard exists and holds the previous VISIBLE value of every
+    overwritten address. -/
+theorem C03_update_discard_old_values (hdv : cfg.condDiscardVisible = true)
+    (g : GF) (t : Tr R) (x : Option CM) (args : List Val)
+    (t' : Tr R) (w : R) (d : Option CM) (h : g.update P cfg t x args = some (t', w, d))
+    (hcan : g.Canon t) (y y' : CM) (hy : t.choices = some y) (hy' : t'.choices = some y')
+    (p : Path) (vx : Val) (_hx : CM.leafAt? x p = some vx) (v : Val) (hv : y.leafAt p = some v) :
+    ∃ dm, d = some dm ∧ dm.leafAt p = some v := by
+  have := update_discard_eq_old P cfg hdv g t x args t' w d h hcan y y' hy hy' p
+  rw [hv] at this
+  cases d with
+  | none => simp [CM.leafAt?] at this
+  | some dm => exact ⟨dm, rfl, this⟩
+
+/-- Round trip (specification variant of `Cond.update`: branch-switch correction and visible
+    discard; with or without `condUpdateFill`): update with any constraint and any new arguments,
+    then update the result with the returned discard and the old arguments — the final trace has
+    the ORIGINAL choice map and the second weight is the negated first weight.  Every program (Cond
+    at any depth, ALSO when the updates switch branches: no `sameChecks` hypothesis), every
+    canonical coherent trace that has a choice map. -/
+theorem C03_update_roundtrip (hsw : cfg.condSwitchCorrection = true)
+    (hdv : cfg.condDiscardVisible = true)
+    (g : GF) (args0 : List Val) (t : Tr R) (hcan : g.Canon t) (hcoh : g.Coh P args0 t)
+    (y : CM) (hy : t.choices = some y)
+    (x : Option CM) (args : List Val) (t' : Tr R) (w : R) (d : Option CM)
+    (h1 : g.update P cfg t x args = some (t', w, d))
+    (t'' : Tr R) (w2 : R) (d2 : Option CM)
+    (h2 : g.update P cfg t' d args0 = some (t'', w2, d2)) :
+    t''.choices = t.choices ∧ w2 = -w := by
+  rw [hy]
+  exact update_roundtrip P cfg hsw hdv g args0 t hcan hcoh y hy x args t' w d h1 t'' w2 d2 h2
+
+/-! ### non-vacuity, on `condExDeep` (a Fn calling a Scan of a Cond and a Vmap of a Cond of a Cond)
+
+  `updScen … = some s` unfolds (`updScen_spec`) to: `s.t` is the simulated trace (canonical, coherent),
+  `update s.t x args = some (s.t', s.w, s.d)`, `s.y` / `s.y'` are the old / new choice maps. -/
+
+/-- hypotheses of `C03_update_constrained_hold_new` / `C03_update_discard_old_values`, with new
+    arguments under which Conds switch branch: the constrained addresses inside the Scan-of-Cond and
+    the Vmap-of-Cond-of-Cond held 5 and 6, hold the constrained 10 and 20 afterwards, and the discard
+    holds 5 and 6. -/
+example : ∃ s, updScen condExP Cfg.spec condExDeep condExDeepArgs (some valExX) valExArgs = some s ∧
+    (!(Tr.sameChecksB s.t s.t') &&
+     decide (CM.leafAt? (some valExX) valExPc = some (.num 10)) &&
+     decide (s.y.leafAt valExPc = some (.num 5)) && decide (s.y'.leafAt valExPc = some (.num 10)) &&
+     decide (CM.leafAt? s.d valExPc = some (.num 5)) &&
+     decide (CM.leafAt? (some valExX) valExPc' = some (.num 20)) &&
+     decide (s.y.leafAt valExPc' = some (.num 6)) && decide (s.y'.leafAt valExPc' = some (.num 20)) &&
+     decide (CM.leafAt? s.d valExPc' = some (.num 6))) = true :=
+  (Option.any_eq_true _ _).mp (by decide +kernel)
+
+/-- hypotheses and conclusion of `C03_update_unconstrained_keep_old` with new arguments under which
+    Conds SWITCH branch (`Cfg.spec.condUpdateFill = true`): the unconstrained addresses keep 8 and 4 -/
+example : ∃ s, updScen condExP Cfg.spec condExDeep condExDeepArgs (some valExX) valExArgs = some s ∧
+    (!(Tr.sameChecksB s.t s.t') &&
+     decide (CM.leafAt? (some valExX) valExPu = none) &&
+     decide (s.y.leafAt valExPu = some (.num 8)) && decide (s.y'.leafAt valExPu = some (.num 8)) &&
+     decide (CM.leafAt? (some valExX) valExPu' = none) &&
+     decide (s.y.leafAt valExPu' = some (.num 4)) &&
+     decide (s.y'.leafAt valExPu' = some (.num 4))) = true :=
+  (Option.any_eq_true _ _).mp (by decide +kernel)
+
+/-- hypotheses of `C03_update_unconstrained_keep_old_partial` without the repair (same arguments, so
+    no Cond switches): unconstrained addresses exist, and keep 8 and 4 -/
+example : ∃ s, updScen condExP valExCfgNoFill condExDeep condExDeepArgs (some valExX) condExDeepArgs
+      = some s ∧
+    (Tr.sameChecksB s.t s.t' &&
+     decide (CM.leafAt? (some valExX) valExPu = none) &&
+     decide (s.y.leafAt valExPu = some (.num 8)) && decide (s.y'.leafAt valExPu = some (.num 8)) &&
+     decide (CM.leafAt? (some valExX) valExPu' = none) &&
+     decide (s.y.leafAt valExPu' = some (.num 4)) &&
+     decide (s.y'.leafAt valExPu' = some (.num 4))) = true :=
+  (Option.any_eq_true _ _).mp (by decide +kernel)
+
+/-- without the repair (`condUpdateFill = false`) the `sameChecks` hypothesis cannot be dropped: with
+    the lane checks swapped, the unconstrained `"x"` of lane 1 of the Vmap shows 6 (the other
+    branch's stored value, `C03_update_switch_values_asis`) instead of 4 -/
+example : ∃ s, updScen condExP valExCfgNoFill condExDeep condExDeepArgs (some valExX) valExArgs
+      = some s ∧
+    (!(Tr.sameChecksB s.t s.t') && decide (CM.leafAt? (some valExX) valExPu' = none) &&
+     decide (s.y.leafAt valExPu' = some (.num 4)) &&
+     decide (s.y'.leafAt valExPu' = some (.num 6))) = true :=
+  (Option.any_eq_true _ _).mp (by decide +kernel)
+
+/-- hypotheses and conclusion of `C03_update_roundtrip`, across branch switches: both updates are
+    defined, the weights are 38 and -38, the final choice map is the original one -/
+example : ∃ s, roundScen condExP Cfg.spec condExDeep condExDeepArgs (some valExX) valExArgs = some s ∧
+    (decide (s.w = 38) && decide (s.w2 = -38) && decide (s.t''.choices = some s.y) &&
+     !(decide (s.y' = s.y))) = true :=
+  (Option.any_eq_true _ _).mp (by decide +kernel)
+
+end Genjax
+/-! ==============================================================================================
+    END work package `gfivalues`
+    ============================================================================================== -/
